@@ -10,6 +10,9 @@ CONSTANTS
   NotifyPop = TRUE
   ReleaseOnEnd = TRUE
   Faults = TRUE
+  StopAfterSend = TRUE
+  CleanupOnDisc = TRUE
+  MaxSendFail = 1000
   MaxOps = 1000
   MaxCancel = 1000
 INVARIANT Sound
